@@ -185,7 +185,10 @@ CLAIMED = {
              "valid, in p's offset, not earlier than p; C20_matches_rat; C20_earliest_rat_hours/_minutes/_seconds/_day - "
              "earliest among candidates of any precision form; C20_idempotent_rat; C20_rat_extends_int. Mirroring the code over "
              "rationals found F18 (the loops never ended for a point inside a second), repaired in /repo; "
-             "C20_fraction_regression keeps the six formerly spinning inputs.",
+             "C20_fraction_regression keeps the six formerly spinning inputs. END-OF-DAY TARGET (Props/C20r): the constructor "
+             "admits hour 24 on a truncated point and `T24 + p` never ended (F21, repaired: the target is read as hour 0); "
+             "LegalTrunc24, C20_terminates_hour24, C20_hour24_is_hour0, C20_repair_conservative, "
+             "C20_hour24_unrepaired_witness.",
         design="DESIGN §8 C20",
         technique="Lean 4 proof (loop specification + periodicity by linear arithmetic) + model/implementation correspondence"),
     "C16": dict(
